@@ -311,6 +311,15 @@ func (sc *collection) doBuild(ctx context.Context) (Provider, error) {
 		if descriptor != nil && descriptor.Lifetime == Scoped && descriptor.VoidReturn {
 			p.voidReturnScopedDescriptors = append(p.voidReturnScopedDescriptors, descriptor)
 		}
+
+		// A constructor registered under several interfaces produces one
+		// instance that is shared by all of them
+		if descriptor != nil && len(descriptor.As) > 1 && descriptor.MultiReturnIndex < 0 && !descriptor.isResultObject {
+			if p.aliases == nil {
+				p.aliases = make(map[uint64][]*Descriptor)
+			}
+			p.aliases[descriptor.registration] = append(p.aliases[descriptor.registration], descriptor)
+		}
 	}
 
 	// Phase 5: Create root scope
